@@ -180,6 +180,23 @@ def main(chk):
             continue
         if st == 'violated':
             rep = replay(chk, native, frame, sig, nm, model)
+            if not rep.get('reproduced') and not nm.startswith('O4'):
+                # the solver's model may sit where the violation is below rounding level (e.g. a point 1e-16 off an edge of a unit triangle).
+                # Directed search: the same obligation with the triangle and the query point confined to other length scales
+                for sc_ in (Fraction(1, 10 ** 5), Fraction(1, 10 ** 3), Fraction(10 ** 3)):
+                    lim = S.const(sc_); lo_ = S.const(sc_ / 4)
+                    names = ['apx', 'apy', 'apz'] + (['l', 'm', 'n'] if frame == 'canonical' else ['abx', 'aby', 'abz', 'acx', 'acy', 'acz'])
+                    extra = []
+                    for nme in names:
+                        v_ = S.var(nme)
+                        extra += [S.cmp('le', v_, lim), S.cmp('ge', v_, S.neg(lim))]
+                    if frame == 'canonical': extra += [S.cmp('ge', S.var('l'), lo_), S.cmp('ge', S.var('n'), lo_)]
+                    else: extra += [S.cmp('ge', S.sub(S.mul(S.vdot(ab, ab), S.vdot(ac, ac)), S.mul(S.vdot(ab, ac), S.vdot(ab, ac))), S.const(sc_ ** 4 / 16))]
+                    st2, m2 = SV.prove(z, list(pc) + extra, cl, 30000)
+                    if st2 == 'violated':
+                        rep2 = replay(chk, native, frame, sig, nm, m2)
+                        if rep2.get('reproduced'):
+                            rep = rep2; model = m2; break
             chk.ob(name, 'violated', core, dt, detail=rep, sample={'obligation': name, 'model': model})
             if rep.get('reproduced'):
                 chk.violation('C05/%s/%s' % (nm, sig), '%s fails in the %s region: %s' % (nm, sig, rep.get('what')), rep)
